@@ -381,17 +381,18 @@ func (ap *zzvRApp) readLoop() {
 // the replay world: a mesh for one topology, all links on hold
 
 type zzvRWorld struct {
-	t       testing.TB
-	m       *zzvMesh
-	topo    zzvRTopo
-	tname   string
-	variant string // "tcp" (exit handler) | "forward" (forward handler)
-	apps    map[int]*zzvRApp
-	names   map[identity.AgentID]string
-	up      map[string]bool   // "A-X" -> link alive
-	sidmap  map[string]uint64 // link + "/" + real sid -> model sid
-	labels  map[string]string // frame identity -> label
-	labelOf map[string]string // label -> identity (uniqueness)
+	t         testing.TB
+	m         *zzvMesh
+	topo      zzvRTopo
+	tname     string
+	variant   string // "tcp" (exit handler) | "forward" (forward handler)
+	apps      map[int]*zzvRApp
+	names     map[identity.AgentID]string
+	up        map[string]bool   // "A-X" -> link alive
+	sidmap    map[string]uint64 // link + "/" + real sid -> model sid
+	labels    map[string]string // frame identity -> label
+	labelOf   map[string]string // label -> identity (uniqueness)
+	loopsSeen int               // number of exit / forward read loops last verified (-1 = never)
 }
 
 func zzvLinkName(a, b string) string {
@@ -406,7 +407,7 @@ func zzvNewRelayWorld(t testing.TB, tname, variant string, kinds map[int]string,
 	if len(tp.Links) == 0 {
 		t.Fatalf("relay: unknown topology %q", tname)
 	}
-	w := &zzvRWorld{t: t, topo: tp, tname: tname, variant: variant, apps: map[int]*zzvRApp{}, names: map[identity.AgentID]string{},
+	w := &zzvRWorld{t: t, topo: tp, tname: tname, variant: variant, loopsSeen: -1, apps: map[int]*zzvRApp{}, names: map[identity.AgentID]string{},
 		up: map[string]bool{}, sidmap: map[string]uint64{}, labels: map[string]string{}, labelOf: map[string]string{}}
 	m := zzvNewMesh(t)
 	w.m = m
@@ -671,6 +672,23 @@ type zzvRProj struct {
 	Tx   map[int]string      `json:"tx"`
 	RcvI map[int][]string    `json:"rcvI"`
 	RcvX map[int][]string    `json:"rcvX"`
+	// number of running exit / forward read loops (= records + overwritten connections); a removed record's read loop
+	// ends asynchronously, the next step waits for it.  -1 = not evaluated.
+	Loops int `json:"loops"`
+}
+
+// zzvReadLoops counts the goroutines inside exit.(*Handler).readLoop / forward.(*Handler).readLoop
+func zzvReadLoops() int {
+	buf := make([]byte, 1<<20)
+	for {
+		n := runtime.Stack(buf, true)
+		if n < len(buf) {
+			buf = buf[:n]
+			break
+		}
+		buf = make([]byte, 2*len(buf))
+	}
+	return strings.Count(string(buf), "exit.(*Handler).readLoop(") + strings.Count(string(buf), "forward.(*Handler).readLoop(")
 }
 
 func zzvNewProj() *zzvRProj {
@@ -837,13 +855,14 @@ type zzvMState struct {
 			Sid  int    `json:"sid"`
 		} `json:"v"`
 	} `json:"xc"`
-	Xcnt map[string]int `json:"xcnt"`
-	Ti   []string       `json:"ti"`
-	Tx   []string       `json:"tx"`
-	Nf   []int          `json:"nf"`
-	Nr   []int          `json:"nr"`
-	RcvI [][][]int      `json:"rcvI"`
-	RcvX [][][]int      `json:"rcvX"`
+	Zomb map[string][]json.RawMessage `json:"zomb"`
+	Xcnt map[string]int               `json:"xcnt"`
+	Ti   []string                     `json:"ti"`
+	Tx   []string                     `json:"tx"`
+	Nf   []int                        `json:"nf"`
+	Nr   []int                        `json:"nr"`
+	RcvI [][][]int                    `json:"rcvI"`
+	RcvX [][][]int                    `json:"rcvX"`
 }
 
 func zzvMLabel(f zzvMFrame) string {
@@ -912,6 +931,9 @@ func (w *zzvRWorld) specProj(s *zzvMState) *zzvRProj {
 		if n != 0 {
 			p.Xcnt[a] = n
 		}
+	}
+	for a := range s.Xc {
+		p.Loops += len(s.Xc[a]) + len(s.Zomb[a])
 	}
 	for i, st := range s.Ti {
 		p.Ti[i+1] = st
@@ -1017,6 +1039,16 @@ func (w *zzvRWorld) compare(exp, got *zzvRProj, commit bool) string {
 		}
 		if strings.Join(exp.RcvX[id], ",") != strings.Join(got.RcvX[id], ",") {
 			return fmt.Sprintf("rcvX[%d]: spec %v real %v", id, exp.RcvX[id], got.RcvX[id])
+		}
+	}
+	// everything else agrees: the read loops of removed connections must have ended before the next step
+	// (checked only at steps where the number changes: counting goroutines stops the world)
+	if got.Loops >= 0 && exp.Loops != w.loopsSeen {
+		if n := zzvReadLoops(); n != exp.Loops {
+			return fmt.Sprintf("readloops: spec %d real %d", exp.Loops, n)
+		}
+		if commit {
+			w.loopsSeen = exp.Loops
 		}
 	}
 	if commit {
